@@ -24,12 +24,12 @@ def convert(rec):
             if c["h"] not in names[e]:
                 return None
             d["h"] = names[e][c["h"]]
-        for k in ("c", "host", "port", "draws", "len", "max", "gr", "gs", "id", "data", "kind", "bt", "r", "accept", "b", "env", "d"):
+        for k in ("c", "host", "port", "draws", "len", "max", "gr", "gs", "id", "data", "kind", "bt", "r", "accept", "b", "env", "d", "m"):
             if k in c:
                 d[k] = c[k]
         cmds.append(d)
     cmds.append({"op": "quiesce", "lazy": not any(c["op"].startswith(("bind", "next_bind", "bridge")) for c in rec["cmds"])})
-    return {"cfg": rec["cfg"], "real": 2, "cmds": cmds}
+    return {"cfg": rec["cfg"], "real": 1 if any(c["op"] in ("inject", "take") for c in rec["cmds"]) else 2, "cmds": cmds}
 
 
 def schedules(num, depth, seed, timeout=900, cfg="MC_MuxSched.cfg"):
